@@ -58,6 +58,18 @@ pub fn vector_field_picture(rng: &mut Rng, cfg: &PicCfg, disposable: bool) -> Sy
     SymPicture { hdr, w: cfg.w, h: cfg.h, mbs, stuffing: vec![] }
 }
 
+/// Long histories use 32x16 pictures: macroblock 0 is predicted with a vector that reaches into
+/// the right half of the reference, macroblock 1 is intra with fresh texture - so content never
+/// converges to something flat, however long the chain of predictions gets.
+pub fn long_history_picture(rng: &mut Rng, cfg: &PicCfg, disposable: bool) -> SymPicture {
+    let hdr = make_header(cfg, if disposable { 2 } else { 1 }, rng);
+    let lc = LevelCfg { v1: cfg.flavour == Flavour::Sor(1), wide: false };
+    let v = [rng.range(10, 26) as i32, rng.range(-6, 6) as i32];
+    let inter = SymMb::Coded { kind: MbKind::Inter, dquant: 1, mvd: [v, [0; 2], [0; 2], [0; 2]], blocks: std::array::from_fn(|_| SymBlock::default()) };
+    let intra = SymMb::Coded { kind: MbKind::Intra, dquant: 1, mvd: [[0; 2]; 4], blocks: std::array::from_fn(|_| gen_block(rng, true, Shape::Sparse, lc)) };
+    SymPicture { hdr, w: cfg.w, h: cfg.h, mbs: vec![inter, intra], stuffing: vec![] }
+}
+
 pub fn failing_input(rng: &mut Rng, cfg: &PicCfg) -> Vec<u8> {
     match rng.below(5) {
         0 => vec![],
@@ -102,7 +114,7 @@ pub fn run_history(ctx: &Ctx, steps: &[Step], tr_policy: u64, sorenson: bool, rn
     let flavour = if sorenson { Flavour::Sor(rng.below(2) as u8) } else { Flavour::StdPlus };
     let long = steps.len() > 40;
     let (w, h) = if long {
-        (16, 16)
+        (32, 16)
     } else {
         (16 * (1 + rng.below(3) as usize) - if sorenson { rng.below(5) as usize } else { 0 }, 16 * (1 + rng.below(2) as usize) - if sorenson { rng.below(5) as usize } else { 0 })
     };
@@ -181,7 +193,7 @@ pub fn run_history(ctx: &Ctx, steps: &[Step], tr_policy: u64, sorenson: bool, rn
             }
             Step::P | Step::D => {
                 let disposable = *st == Step::D;
-                let pic = vector_field_picture(rng, &cfg, disposable);
+                let pic = if long { long_history_picture(rng, &cfg, disposable) } else { vector_field_picture(rng, &cfg, disposable) };
                 let b = pic.encode();
                 fp = fnv64_more(fp, &b);
                 let out = dec.decode(&b);
@@ -224,7 +236,7 @@ pub fn run_history(ctx: &Ctx, steps: &[Step], tr_policy: u64, sorenson: bool, rn
                             return;
                         }
                     };
-                    if rec.lo.y == got.y && rec.lo.cb == got.cb && rec.lo.cr == got.cr {
+                    if crate::model::recon::compare(&rec, &got.y, &got.cb, &got.cr).0.is_none() {
                         matches_idx.push(j);
                     }
                 }
@@ -297,6 +309,35 @@ pub fn run_history(ctx: &Ctx, steps: &[Step], tr_policy: u64, sorenson: bool, rn
 
 const ALPHA: [Step; 5] = [Step::I, Step::P, Step::D, Step::F, Step::C];
 
+/// Histories with long runs of one event between a reference and the picture that must still be
+/// predicted from it: I X^n P P, for X in {D, F, C, P} and n around 2^4, 2^8, 2^16.
+pub fn ladder_items(thorough: bool) -> Vec<(Vec<Step>, u64)> {
+    let mut v = vec![];
+    let runs: &[(Step, &[usize])] = &[
+        (Step::D, &[15, 16, 17, 255, 256, 257, 65535, 65536, 65537]),
+        (Step::F, &[15, 16, 17, 40, 255, 256, 257, 1000]),
+        (Step::C, &[16, 256, 257]),
+        (Step::P, &[255, 256, 257, 65536]),
+    ];
+    for (x, ns) in runs {
+        for &n in ns.iter() {
+            if !thorough && n > 60000 && !(n == 65536 || (n == 65537 && *x == Step::D)) {
+                continue;
+            }
+            for pol in [0u64, 4] {
+                if n > 60000 && pol == 4 && !thorough {
+                    continue;
+                }
+                let mut s = vec![Step::I];
+                s.extend(std::iter::repeat(*x).take(n));
+                s.extend([Step::P, Step::D, Step::P]);
+                v.push((s, pol));
+            }
+        }
+    }
+    v
+}
+
 pub fn case(ctx: &Ctx, shard: usize, index: u64, rep: &mut Report) {
     let mut rng = Rng::new(ctx.seed ^ 0xC04, ((shard as u64) << 40) | index);
     let sorenson = rng.chance(4, 5);
@@ -364,6 +405,24 @@ pub fn run(ctx: &Ctx) -> (Report, String) {
         rep
     });
     let mut rep = Report::merge_all(reps);
+    // run-length ladder: counters that wrap after 2^4 / 2^8 / 2^16 events
+    if !ctx.miri() && ctx.is_main() {
+        let items = ladder_items(thorough);
+        let lr = par_shards(items.len(), ctx.threads, |k| {
+            let mut r = Report::new();
+            let (steps, pol) = &items[k];
+            let mut rng = Rng::new(ctx.seed ^ 0xC04AD, k as u64);
+            let coords = || J::obj().set("property", "C04").set("kind", "ladder").set("tier", ctx.tier_name()).set("seed", ctx.seed).set("stage", ctx.stage.clone()).set("k", k);
+            let before = r.get("histories_completed");
+            crate::mon::guarded(&mut r, coords, |r| run_history(ctx, steps, *pol, true, &mut rng, r, &coords));
+            if r.get("histories_completed") > before {
+                r.count("ladder_histories_completed");
+            }
+            r
+        });
+        rep.merge(Report::merge_all(lr));
+        rep.require("ladder_histories_completed", items.len() as u64 * 9 / 10);
+    }
     if ctx.is_main() {
         let m = ctx.scale_pct;
         rep.require("histories_completed", if thorough { 2_500_000 } else { 150_000 } * m / 100);
@@ -375,6 +434,16 @@ pub fn run(ctx: &Ctx) -> (Report, String) {
 }
 
 pub fn replay(ctx: &Ctx, j: &J, rep: &mut Report) {
+    if j.get("kind").and_then(|k| k.as_str()) == Some("ladder") {
+        let k = j.get("k").and_then(|k| k.as_i64()).unwrap_or(0) as usize;
+        let items = ladder_items(true);
+        let items = if k < ladder_items(ctx.tier == Tier::Thorough).len() { ladder_items(ctx.tier == Tier::Thorough) } else { items };
+        let (steps, pol) = &items[k];
+        let mut rng = Rng::new(ctx.seed ^ 0xC04AD, k as u64);
+        let jj = j.clone();
+        run_history(ctx, steps, *pol, true, &mut rng, rep, &move || jj.clone());
+        return;
+    }
     if j.get("kind").and_then(|k| k.as_str()) == Some("exhaustive") {
         let steps: Vec<Step> = j
             .get("history")
